@@ -132,15 +132,21 @@ func GetExtendedSpatialIdsWithinRadiusOfLine(startPoint *object.Point, endPoint 
 
 			}
 
+			// Use a fresh measure for every SpatialID: a reused measure starts its search from the state the
+			// previous SpatialID left behind, so the distance (and with it the result) depended on the order
+			// of idsAroundLine, which comes out of a map.
+			measure := closest.Measure{}
+			measure.ConvexHulls[0] = measure1.ConvexHulls[0]
+
 			// Put idConvex into measure's ConvexHulls[1]
-			measure1.ConvexHulls[1] = idConvex
+			measure.ConvexHulls[1] = idConvex
 
 			// Measure the distance between the line (ConvexHull[0]) and the
 			// SpatialIDs vertex vectors (ConvexHull[1])
-			measure1.MeasureNonnegativeDistance()
+			measure.MeasureNonnegativeDistance()
 
 			// dist is the closest distance between the line (ConvexHull[0]) and the vertexes of Spatial ID[i]
-			var dist = measure1.Distance
+			var dist = measure.Distance
 
 			// Since MeasureNonnegativeDistance() was used the distance value in dist
 			// will always be non-zero. If dist < radius, add the spatialID to idsToAdd
